@@ -38,7 +38,6 @@ macro_rules! driver_fn {
             if f(&st) {
                 acc.nontrivial(crate::util::fp(&(case, st.calls, st.sends, st.timers, st.identity_changes, st.errors)));
             }
-            acc.sample(|| serde_json::json!({"workload": "driver", "case": case, "stats": format!("{st:?}")}));
             Ok(())
         }
     };
